@@ -64,6 +64,13 @@ var respPlaces = []respPlace{
 	{"name-ending-in-extension", func(n, i int, fault string) (map[string]string, string) {
 		return map[string]string{"page.tw": "PAGE-SENTINEL-other", "report.tw.tw": sentinelStmts(n, i, fault), "report.tw": "PAGE-SENTINEL-near-miss {{ 1 }}"}, "report.tw"
 	}},
+	{"after-nested-render", func(n, i int, fault string) (map[string]string, string) {
+		// a registered function renders another template of the same tree while the page is being rendered
+		return map[string]string{"partials/menu.tw": "<menu>{{ 1 + 1 }}</menu>", "page.tw": "PAGE-SENTINEL-top {{ \"partials/menu\".include() }}\n" + sentinelStmts(n, i, fault) + "{{ \"partials/menu\".include() }}"}, "page"
+	}},
+	{"page-in-dot-directory", func(n, i int, fault string) (map[string]string, string) {
+		return map[string]string{".drafts/post.tw": sentinelStmts(n, i, fault), "page.tw": "PAGE-SENTINEL-other"}, ".drafts/post"
+	}},
 	{"inside-loop-pass", func(n, i int, fault string) (map[string]string, string) {
 		// fails in pass i of n
 		return map[string]string{"page.tw": fmt.Sprintf("PAGE-SENTINEL-head\n@each(k in rows)PAGE-SENTINEL-row {{ k }}\n@if(k == %d)%s@end@end PAGE-SENTINEL-tail", i, fault)}, "page"
@@ -156,6 +163,9 @@ var respFaults = []string{"{{ 1 / zero }}\n", "{{ MISSING_IDENT_SENTINEL }}\n", 
 // the last two places render a name that is not a page
 var firstNamePlace = len(respPlaces) - 2
 
+// the Template being rendered by the response matrix (the include function renders partials of it)
+var c17Current *textwire.Template
+
 var errPageModes = []string{"none", "valid", "missing", "failing"}
 
 func init() {
@@ -172,6 +182,16 @@ func init() {
 			textwire.VerifReset()
 			textwire.RegisterStrFunc("echo", func(s string, args ...any) string { return s + fmt.Sprint(args...) })
 			textwire.RegisterArrFunc("echoarr", func(a []any, args ...any) []any { return append(a, args...) })
+			textwire.RegisterStrFunc("include", func(name string, args ...any) string {
+				if c17Current == nil {
+					return "no template"
+				}
+				out, fe := c17Current.String(name, nil)
+				if fe != nil {
+					return "include failed"
+				}
+				return out
+			})
 		},
 		Sections: func(tier core.Tier, seed int64) []core.Section {
 			type combo struct {
@@ -482,6 +502,18 @@ func init() {
 					pl := respPlaces[cb.place]
 					fault := respFaults[cb.fault]
 					files, name := pl.build(cb.n, cb.pos, fault)
+					errPath := "errors/oops"
+					if pl.name == "page-in-dot-directory" {
+						// the custom error page lives in a dot directory too, with a layout beside it
+						errPath = ".system/500"
+						switch errPageModes[cb.mode] {
+						case "valid":
+							files[".system/frame.tw"] = "@reserve(\"body\")"
+							files[".system/500.tw"] = "@use(\".system/frame\")@insert(\"body\")" + customPageSource + "@end"
+						case "failing":
+							files[".system/500.tw"] = "CUSTOM-SENTINEL start {{ 1 / 0 }}"
+						}
+					}
 					switch errPageModes[cb.mode] {
 					case "valid":
 						// (a page that works on its own: it assigns names of its own choosing - the data of the failed call
@@ -498,7 +530,7 @@ func init() {
 					textwire.VerifResetConfig()
 					cfg := &config.Config{TemplateDir: dir, TemplateExt: ".tw", DebugMode: cb.debug}
 					if errPageModes[cb.mode] != "none" {
-						cfg.ErrorPagePath = "errors/oops"
+						cfg.ErrorPagePath = errPath
 					}
 					desc := map[string]any{"debug": cb.debug, "custom_error_page": errPageModes[cb.mode], "place": pl.name, "fault": fault, "statements": cb.n, "failing_statement": cb.pos, "files": describeFiles(files), "render": name}
 					c.Input(desc)
@@ -513,6 +545,7 @@ func init() {
 						return
 					}
 					data := map[string]any{"zero": 0, "rows": []int{0, 1, 2, 3}, "user": map[string]any{"name": "n", "Id": 3}}
+					c17Current = tpl
 					rec := newRecorder()
 					var rerr error
 					c.Eval(1)
@@ -597,6 +630,10 @@ func init() {
 						lineBase = 1 + strings.Count(multiLinePrelude, "\n")
 					case "name-ending-in-extension":
 						lineBase, file = 1, "report.tw.tw"
+					case "after-nested-render":
+						lineBase = 2
+					case "page-in-dot-directory":
+						lineBase, file = 1, ".drafts/post.tw"
 					}
 					if lineBase > 0 && !strings.Contains(fault, "@each") {
 						abs, _ := filepath.Abs(filepath.Join(dir, file))
